@@ -87,7 +87,11 @@ func validateDecimal64String(s string, fractionDigitsAllowed int) error {
 			return newValidateDecimal64Error(
 				fmt.Sprintf("Error parsing digits: %s", err))
 		}
-		return nil
+		// A value without fraction is subject to the same bounds as one
+		// with: the integer part alone must fit once scaled by
+		// 10^fraction-digits (9223372036854776 is not a decimal64 with 3
+		// fraction digits).
+		sSplit = append(sSplit, "0")
 	}
 	if len(sSplit) > 2 {
 		return newValidateDecimal64Error(errorStringExcessDecimalPoint)
